@@ -186,7 +186,9 @@ func flight5Generate(
 
 		// Find compatible signature scheme
 
-		signatureHashAlgo, err := signaturehash.SelectSignatureScheme(state.RemoteCertRequestAlgs, signer)
+		signatureHashAlgo, err := signaturehash.SelectSignatureScheme(
+			dtlsflight.CommonSignatureSchemes(state.RemoteCertRequestAlgs, cfg.LocalSignatureSchemes), signer,
+		)
 		if err != nil {
 			return nil, &alert.Alert{Level: alert.Fatal, Description: alert.InsufficientSecurity}, err
 		}
